@@ -15,6 +15,9 @@ import (
 	"github.com/apache/skywalking-banyandb/banyand/internal/verifdrv/drv"
 	"github.com/apache/skywalking-banyandb/pkg/convert"
 	pbv1 "github.com/apache/skywalking-banyandb/pkg/pb/v1"
+	ltrace "github.com/apache/skywalking-banyandb/pkg/query/logical/trace"
+	vtrace "github.com/apache/skywalking-banyandb/pkg/query/vectorized/trace"
+	"google.golang.org/protobuf/types/known/timestamppb"
 )
 
 func parseTV(s string) *modelv1.TagValue {
@@ -64,6 +67,41 @@ func handle(f []string) string {
 		b, _ := strconv.ParseInt(f[2], 10, 32)
 		ea, eb := convert.Int32ToBytes(int32(a)), convert.Int32ToBytes(int32(b))
 		return fmt.Sprintf("%s %s %s %d", drv.HexRaw(ea), drv.HexRaw(eb), drv.B01(bytes.Compare(ea, eb) < 0), convert.BytesToInt32(ea))
+	case "sk": // composite / distributed sort keys of int64 values: sk <trace|vtrace|tag> a b
+		a, _ := strconv.ParseInt(f[2], 10, 64)
+		b, _ := strconv.ParseInt(f[3], 10, 64)
+		var ea, eb []byte
+		switch f[1] {
+		case "trace":
+			ea, eb = ltrace.VerifC12SortKey(a), ltrace.VerifC12SortKey(b)
+		case "vtrace":
+			ea, eb = vtrace.NewMergeItem(a, 0, 0, nil).SortedField(), vtrace.NewMergeItem(b, 0, 0, nil).SortedField()
+		case "tag":
+			var err error
+			if ea, err = pbv1.MarshalTagValue(&modelv1.TagValue{Value: &modelv1.TagValue_Int{Int: &modelv1.Int{Value: a}}}); err != nil {
+				return "ERR"
+			}
+			if eb, err = pbv1.MarshalTagValue(&modelv1.TagValue{Value: &modelv1.TagValue_Int{Int: &modelv1.Int{Value: b}}}); err != nil {
+				return "ERR"
+			}
+		default:
+			return "bad-op"
+		}
+		return fmt.Sprintf("%s %s %s", drv.HexRaw(ea), drv.HexRaw(eb), drv.B01(bytes.Compare(ea, eb) < 0))
+	case "skts": // timestamp tag sort key: skts secA nanosA secB nanosB
+		sa, _ := strconv.ParseInt(f[1], 10, 64)
+		na, _ := strconv.ParseInt(f[2], 10, 32)
+		sb, _ := strconv.ParseInt(f[3], 10, 64)
+		nb, _ := strconv.ParseInt(f[4], 10, 32)
+		ea, err := pbv1.MarshalTagValue(&modelv1.TagValue{Value: &modelv1.TagValue_Timestamp{Timestamp: &timestamppb.Timestamp{Seconds: sa, Nanos: int32(na)}}})
+		if err != nil {
+			return "ERR"
+		}
+		eb, err := pbv1.MarshalTagValue(&modelv1.TagValue{Value: &modelv1.TagValue_Timestamp{Timestamp: &timestamppb.Timestamp{Seconds: sb, Nanos: int32(nb)}}})
+		if err != nil {
+			return "ERR"
+		}
+		return fmt.Sprintf("%s %s %s", drv.HexRaw(ea), drv.HexRaw(eb), drv.B01(bytes.Compare(ea, eb) < 0))
 	case "i16":
 		a, _ := strconv.ParseInt(f[1], 10, 16)
 		ea := convert.Int16ToBytes(int16(a))
